@@ -22,7 +22,7 @@
 //	a && b, a || b          short-circuit preserved when b can panic
 //
 // Go `int` is Lean `Int`; string and []byte are both Bytes with nil = []; a nil test on a slice,
-// goroutines, maps, closures, pointers that alias, defer and everything else outside the subset
+// goroutines, maps, closures, pointers that alias, defer (but see below) and everything else outside the subset
 // make Translate return an error (the caller then emits its pinned copy and reports the anchor
 // lost, so that the correspondence run decides).
 //
@@ -73,6 +73,40 @@
 //	                        declaration of the file by StructDefs), `p.major, v, ok = parseInt(v[1:])` destructures the
 //	                        callee's tuple and updates the field with `{ p with major := … }`, an assignment to a parameter
 //	                        (`v`) shadows it; no rule of its own
+//
+// Additions made for golang.org/x/mod/module (module.go of the same x/mod version; preset "module"):
+//
+//	rune, type T int        `rune` is an int (Lean Int); a defined type whose underlying type is a basic type of the
+//	                        subset (`type pathKind int`) is that type
+//	iota                    a package-level constant of a parenthesised const group is inlined with `iota` = the index of
+//	                        its ConstSpec; a ConstSpec without expressions repeats the nearest preceding expression list
+//	                        (`modulePath pathKind = iota; importPath; filePath` are 0, 1, 2)
+//	pkg.Const               a constant of another package is a configured global (`utf8.RuneSelf` = 128, `utf8.RuneError`)
+//	const x = … (local)     a local constant declaration is a variable that is never assigned
+//	'a' + r                 an untyped rune constant takes the type of the int operand next to it
+//	byte(x)                 of an int / rune x: `GoLib.byteOfInt x`, the low eight bits (x mod 256)
+//	for i, r := range s     over a string WITH the byte offset: the list `Config.RuneIdxFn s : List (Int × Int)` of
+//	                        (offset, rune) pairs (GoLib.runesIdx: utf8.DecodeRuneInString at every position — an ASCII byte
+//	                        is itself, a well-formed shortest-form encoding is decoded and skipped, any other byte is U+FFFD
+//	                        of width 1); the loop definition recurses on that list with the pattern `(i, r) :: rest_`.
+//	                        Without the offset: `Config.RuneFn s : List Int` as before (GoLib.runes for this preset)
+//	errors                  an `error` is `GoError` = Option Bytes, none = nil.  With Config.OpaqueErrors only nil / non-nil
+//	                        is meaningful: `fmt.Errorf(format, args…)` is the non-nil error whose message is the UNFORMATTED
+//	                        format string — the arguments are evaluated (they may panic, e.g. a call) and dropped;
+//	                        `&T{…}` / `T{…}` for a struct type T listed in Config.ErrorTypes (the file must declare
+//	                        `func (e *T) Error() string`) is the non-nil error with message "T", the field values
+//	                        evaluated and dropped.  `err != nil`, `f(x) == nil` compare with none
+//	defer func() { … }()    as the FIRST statement of a function whose results are all named, the closure without parameters,
+//	                        results, return, panic, recover, go, defer or nested function literals: at every `return` the
+//	                        result expressions are evaluated and assigned to the named results, then the closure's body is
+//	                        translated in place — it reads the current values of the parameters and named results and may
+//	                        replace the results (`if err != nil { err = &InvalidPathError{…} }`) — and the named results are
+//	                        returned.  A panic stays a panic (no recover).  Any other defer is rejected
+//	Unicode tables          `unicode.IsLetter` and `strings.EqualFold` are fields of the parameter `u : GoLib.Unicode` every
+//	                        definition of the preset takes (Config.ExtraParams); what an equivalence proof assumes of them is
+//	                        a hypothesis of the theorem (GIV.ModuleGo.FoldOK), not a definition.  strings.Contains / Count /
+//	                        ContainsRune / LastIndexByte and utf8.ValidString are library meanings (GIV/GoLibStr.lean);
+//	                        semver.IsValid / Major / Build are the translated GIV.Go.Semver definitions (Option results)
 package go2lean
 
 import (
@@ -202,6 +236,14 @@ type Config struct {
 	// RuneFn: the Lean function Bytes → List Int giving the runes `for _, c := range s` yields for a Go
 	// string s (utf8 decoding, RuneError for invalid bytes); range over a string is outside the subset without it.
 	RuneFn string
+	// RuneIdxFn: the Lean function Bytes → List (Int × Int) giving the (byte offset, rune) pairs
+	// `for i, c := range s` yields for a Go string s; range over a string with the offset is outside the subset without it.
+	RuneIdxFn string
+	// ErrorTypes: struct types of the file that implement `error`; `&T{…}` is an opaque non-nil GoError (message = "T").
+	ErrorTypes map[string]bool
+	// OpaqueErrors: `fmt.Errorf(format, args…)` is the non-nil error with message `format` (the arguments are
+	// evaluated and dropped).  For translations whose callers only test errors for nil.
+	OpaqueErrors bool
 }
 
 type Param struct {
@@ -253,31 +295,51 @@ type tr struct {
 	inGlobal map[string]bool
 	selfRec  bool            // the function being translated calls itself: its body is defined by recursion on a fuel argument
 	nilTest  map[string]bool // names compared with nil somewhere in the function being translated
+	iota     int             // value of `iota` while a package-level constant is being inlined (-1 otherwise)
+	deferred []ast.Stmt      // body of the `defer func() { … }()` that opens the function being translated (nil: none)
 }
 
 // topLevel finds the initializer of a package-level `const`/`var name = <expr>`.
 func (t *tr) topLevel(name string) ast.Expr {
+	e, _ := t.topLevelIota(name)
+	return e
+}
+
+// topLevelIota also gives the value `iota` has in that initializer: the index of the ConstSpec in its
+// parenthesised `const ( … )` group; a ConstSpec without expressions repeats the expression list of the
+// nearest preceding one (Go's implicit repetition).  -1 outside a const declaration.
+func (t *tr) topLevelIota(name string) (ast.Expr, int) {
 	if t.file == nil {
-		return nil
+		return nil, -1
 	}
 	for _, d := range t.file.Decls {
 		gd, ok := d.(*ast.GenDecl)
 		if !ok || (gd.Tok != token.CONST && gd.Tok != token.VAR) {
 			continue
 		}
-		for _, sp := range gd.Specs {
+		var last []ast.Expr
+		for si, sp := range gd.Specs {
 			vs, ok := sp.(*ast.ValueSpec)
 			if !ok {
 				continue
 			}
+			values, iota := vs.Values, -1
+			if gd.Tok == token.CONST {
+				iota = si
+				if len(values) == 0 {
+					values = last
+				} else {
+					last = values
+				}
+			}
 			for i, n := range vs.Names {
-				if n.Name == name && i < len(vs.Values) {
-					return vs.Values[i]
+				if n.Name == name && i < len(values) {
+					return values[i], iota
 				}
 			}
 		}
 	}
-	return nil
+	return nil, -1
 }
 
 type bail struct{ err error }
@@ -368,7 +430,7 @@ func (t *tr) typeExpr(e ast.Expr) *Type {
 	switch v := e.(type) {
 	case *ast.Ident:
 		switch v.Name {
-		case "int", "int64", "int32":
+		case "int", "int64", "int32", "rune":
 			return TInt
 		case "byte", "uint8":
 			return TByte
@@ -381,6 +443,9 @@ func (t *tr) typeExpr(e ast.Expr) *Type {
 		}
 		if s, ok := t.cfg.Structs[v.Name]; ok {
 			return &Type{K: KStruct, Name: s.Lean}
+		}
+		if u := t.definedType(v.Name); u != nil { // `type pathKind int`: the underlying type
+			return t.typeExpr(u)
 		}
 	case *ast.ArrayType:
 		if v.Len == nil {
@@ -424,6 +489,26 @@ func (t *tr) typeExpr(e ast.Expr) *Type {
 		}
 	}
 	t.fail(e, "unsupported type %s", t.src(e))
+	return nil
+}
+
+// definedType finds the underlying type of a package-level `type name <basic type>` (not a struct, not an alias).
+func (t *tr) definedType(name string) ast.Expr {
+	if t.file == nil {
+		return nil
+	}
+	for _, d := range t.file.Decls {
+		gd, ok := d.(*ast.GenDecl)
+		if !ok || gd.Tok != token.TYPE {
+			continue
+		}
+		for _, sp := range gd.Specs {
+			ts := sp.(*ast.TypeSpec)
+			if id, ok := ts.Type.(*ast.Ident); ok && ts.Name.Name == name && !ts.Assign.IsValid() && ts.TypeParams == nil && id.Name != name {
+				return id
+			}
+		}
+	}
 	return nil
 }
 
@@ -579,6 +664,10 @@ func (t *tr) exprN(e ast.Expr) val {
 			return val{s: v.Name, t: TBool}
 		case "nil":
 			return val{s: "nil", t: nil} // resolved by the context (assignment / return / call argument)
+		case "iota":
+			if t.iota >= 0 && t.lookup("iota") == nil {
+				return val{s: strconv.Itoa(t.iota), t: TInt}
+			}
 		}
 		if vi := t.lookup(v.Name); vi != nil {
 			return val{s: vi.lean, t: vi.t}
@@ -586,14 +675,14 @@ func (t *tr) exprN(e ast.Expr) val {
 		if g, ok := t.cfg.Globals[v.Name]; ok {
 			return val{s: g.Lean, t: g.T}
 		}
-		if init := t.topLevel(v.Name); init != nil && !t.inGlobal[v.Name] {
+		if init, iota := t.topLevelIota(v.Name); init != nil && !t.inGlobal[v.Name] {
 			// a package-level constant or variable with a side-effect-free initializer: inline its value
 			// (variables are assumed never to be reassigned — true of the literal tables this is used for)
 			t.inGlobal[v.Name] = true
-			saveS, saveO := t.scopes, t.order
-			t.scopes, t.order = nil, nil
+			saveS, saveO, saveI := t.scopes, t.order, t.iota
+			t.scopes, t.order, t.iota = nil, nil, iota
 			x := t.expr(init)
-			t.scopes, t.order = saveS, saveO
+			t.scopes, t.order, t.iota = saveS, saveO, saveI
 			delete(t.inGlobal, v.Name)
 			if len(x.pre) > 0 || x.t == nil {
 				t.fail(e, "package-level %s has an initializer outside the subset", v.Name)
@@ -602,6 +691,11 @@ func (t *tr) exprN(e ast.Expr) val {
 		}
 		t.fail(e, "unknown identifier %s", v.Name)
 	case *ast.UnaryExpr:
+		if cl, ok := v.X.(*ast.CompositeLit); ok && v.Op == token.AND {
+			if ev, ok := t.errorLit(cl); ok {
+				return ev
+			}
+		}
 		x := t.expr(v.X)
 		switch v.Op {
 		case token.NOT:
@@ -655,6 +749,11 @@ func (t *tr) exprN(e ast.Expr) val {
 		pre = append(pre, fmt.Sprintf("let %s ← GoLib.slice? %s %s %s", tmp, paren(x.s), lo, hi))
 		return val{pre: pre, s: tmp, t: x.t}
 	case *ast.SelectorExpr:
+		if id, ok := v.X.(*ast.Ident); ok && t.lookup(id.Name) == nil {
+			if g, ok := t.cfg.Globals[id.Name+"."+v.Sel.Name]; ok { // a constant of another package (utf8.RuneSelf)
+				return val{s: g.Lean, t: g.T}
+			}
+		}
 		if id, ok := v.X.(*ast.Ident); ok && t.lookup(id.Name) != nil {
 			x := t.lookup(id.Name)
 			if x.t.K == KStruct {
@@ -667,6 +766,9 @@ func (t *tr) exprN(e ast.Expr) val {
 		}
 		t.fail(e, "unsupported selector %s", t.src(e))
 	case *ast.CompositeLit:
+		if ev, ok := t.errorLit(v); ok {
+			return ev
+		}
 		ty := t.typeExpr(v.Type)
 		if ty.K == KStruct {
 			s := t.structOf(ty)
@@ -711,6 +813,46 @@ func (t *tr) exprN(e ast.Expr) val {
 	}
 	t.fail(e, "unsupported expression %s", t.src(e))
 	return val{}
+}
+
+// errorLit translates `T{…}` / `&T{…}` for a configured error type T (Config.ErrorTypes; the file must declare
+// `func (e *T) Error() string` or `func (e T) Error() string`): an opaque non-nil error whose message is the
+// type name.  The field values are evaluated (they may panic) and dropped.
+func (t *tr) errorLit(cl *ast.CompositeLit) (val, bool) {
+	id, ok := cl.Type.(*ast.Ident)
+	if !ok || !t.cfg.ErrorTypes[id.Name] || t.lookup(id.Name) != nil {
+		return val{}, false
+	}
+	hasMethod := false
+	if t.file != nil {
+		for _, d := range t.file.Decls {
+			fd, ok := d.(*ast.FuncDecl)
+			if !ok || fd.Recv == nil || len(fd.Recv.List) != 1 || fd.Name.Name != "Error" {
+				continue
+			}
+			rt := fd.Recv.List[0].Type
+			if st, ok := rt.(*ast.StarExpr); ok {
+				rt = st.X
+			}
+			if rid, ok := rt.(*ast.Ident); ok && rid.Name == id.Name && len(fd.Type.Params.List) == 0 &&
+				fd.Type.Results != nil && len(fd.Type.Results.List) == 1 && t.src(fd.Type.Results.List[0].Type) == "string" {
+				hasMethod = true
+			}
+		}
+	}
+	if !hasMethod {
+		t.fail(cl, "%s is configured as an error type but has no Error() string method", id.Name)
+	}
+	var pre []string
+	for _, el := range cl.Elts {
+		e := el
+		if kv, ok := el.(*ast.KeyValueExpr); ok {
+			e = kv.Value
+		}
+		x := t.expr(e)
+		pre = append(pre, x.pre...)
+	}
+	return val{pre: pre, s: "(some " + leanBytes(id.Name) + " : GoError)", t: TError}, true
 }
 
 func (t *tr) fieldType(s *Struct, name string) *Type {
@@ -790,6 +932,11 @@ func (t *tr) binary(v *ast.BinaryExpr) val {
 	x, y = t.coerce(x, y.t), t.coerce(y, x.t)
 	pre := append(append([]string{}, x.pre...), y.pre...)
 	a, b := paren(x.s), paren(y.s)
+	if x.t != nil && y.t != nil && x.t.K == KByte && y.t.K == KInt {
+		if _, err := strconv.Atoi(x.s); err == nil { // an untyped rune constant ('a' + r) takes the type of the other operand
+			x.t = y.t
+		}
+	}
 	switch v.Op {
 	case token.ADD:
 		if x.t.K == KBytes {
@@ -882,6 +1029,9 @@ func (t *tr) call(c *ast.CallExpr) val {
 		}
 		if vs[0].t != nil && vs[0].t.K != ty.K {
 			if _, err := strconv.Atoi(vs[0].s); err != nil {
+				if name == "byte" && vs[0].t.K == KInt { // byte(r) of an int / rune: the low eight bits
+					return val{pre: pre, s: "GoLib.byteOfInt " + paren(vs[0].s), t: TByte}
+				}
 				t.fail(c, "numeric conversion between different types is outside the subset")
 			}
 		}
@@ -960,11 +1110,18 @@ func (t *tr) call(c *ast.CallExpr) val {
 		}
 		return val{pre: pre, s: paren(vs[0].s) + " ++ [" + strings.Join(parts, ", ") + "]", t: vs[0].t}
 	case "errors.New", "fmt.Errorf":
-		if len(c.Args) != 1 {
+		if len(c.Args) == 0 || (len(c.Args) != 1 && (name != "fmt.Errorf" || !t.cfg.OpaqueErrors)) {
 			t.fail(c, "%s with arguments", name)
 		}
 		x := t.expr(c.Args[0])
-		return val{pre: x.pre, s: "(some " + paren(x.s) + " : GoError)", t: TError}
+		pre := append([]string{}, x.pre...)
+		for _, a := range c.Args[1:] {
+			// OpaqueErrors: the message is the format string, unformatted; the operands are evaluated (they may
+			// panic) and dropped — only nil / non-nil of an error is meaningful in such a translation
+			y := t.expr(a)
+			pre = append(pre, y.pre...)
+		}
+		return val{pre: pre, s: "(some " + paren(x.s) + " : GoError)", t: TError}
 	}
 	if lf, ok := t.cfg.Lib[name]; ok {
 		pre, vs := args()
@@ -1423,6 +1580,9 @@ func (t *tr) returnStmt(r *ast.ReturnStmt) string {
 		want = []*Type{t.ret}
 	}
 	var pre, parts []string
+	if t.deferred != nil {
+		return t.returnDeferred(r, want)
+	}
 	if len(r.Results) == 0 {
 		for _, n := range t.named {
 			parts = append(parts, t.lookup(n).lean)
@@ -1444,12 +1604,82 @@ func (t *tr) returnStmt(r *ast.ReturnStmt) string {
 	return join(pre, t.wrapRet(res))
 }
 
+// returnDeferred is `return` in a function that opens with `defer func() { … }()`: the result expressions are
+// evaluated and assigned to the named results, then the deferred body runs — in the scope of the function's
+// parameters and named results, whose current values it reads and may replace — and the named results are returned.
+func (t *tr) returnDeferred(r *ast.ReturnStmt, want []*Type) string {
+	var lines []string
+	named := func() []*varInfo {
+		var vs []*varInfo
+		for _, n := range t.named {
+			vs = append(vs, t.scopes[0][n])
+		}
+		return vs
+	}()
+	if len(r.Results) != 0 {
+		if len(r.Results) != len(want) {
+			t.fail(r, "return f(x) in a function with a deferred call")
+		}
+		var xs []val
+		for i, e := range r.Results {
+			x := t.coerce(t.expr(e), want[i])
+			lines = append(lines, x.pre...)
+			if len(r.Results) > 1 && !isTmp(x.s) {
+				tmp := t.tmp()
+				lines = append(lines, fmt.Sprintf("let %s : %s := %s", tmp, want[i].Lean(), x.s))
+				x = val{s: tmp, t: want[i]}
+			}
+			xs = append(xs, x)
+		}
+		for i, x := range xs {
+			if x.s != named[i].lean {
+				lines = append(lines, fmt.Sprintf("let %s : %s := %s", named[i].lean, named[i].t.Lean(), x.s))
+			}
+		}
+	}
+	saveS, saveO, saveL, saveD := t.scopes, t.order, t.loops, t.deferred
+	t.scopes, t.order, t.loops, t.deferred = append([]map[string]*varInfo{}, t.scopes[:1]...), append([][]string{}, t.order[:1]...), nil, nil
+	t.push()
+	body := t.block(saveD, func() string { return t.wrapRet(tuple(named)) })
+	t.scopes, t.order, t.loops, t.deferred = saveS, saveO, saveL, saveD
+	return join(lines, body)
+}
+
+// deferredBody recognises `defer func() { … }()` (no parameters, no results, no arguments; the body free of
+// return, defer, go, recover and function literals).
+func deferredBody(s ast.Stmt) []ast.Stmt {
+	d, ok := s.(*ast.DeferStmt)
+	if !ok || len(d.Call.Args) != 0 {
+		return nil
+	}
+	fl, ok := d.Call.Fun.(*ast.FuncLit)
+	if !ok || len(fl.Type.Params.List) != 0 || (fl.Type.Results != nil && len(fl.Type.Results.List) != 0) || len(fl.Body.List) == 0 {
+		return nil
+	}
+	bad := false
+	ast.Inspect(fl.Body, func(x ast.Node) bool {
+		switch v := x.(type) {
+		case *ast.ReturnStmt, *ast.DeferStmt, *ast.GoStmt, *ast.FuncLit, *ast.BranchStmt:
+			bad = true
+		case *ast.CallExpr:
+			if calleeName(v.Fun) == "recover" || calleeName(v.Fun) == "panic" {
+				bad = true
+			}
+		}
+		return true
+	})
+	if bad {
+		return nil
+	}
+	return fl.Body.List
+}
+
 // simple translates a statement without control flow into `let` lines.
 func (t *tr) simple(s ast.Stmt) []string {
 	switch v := s.(type) {
 	case *ast.DeclStmt:
 		gd, ok := v.Decl.(*ast.GenDecl)
-		if !ok || gd.Tok != token.VAR {
+		if !ok || (gd.Tok != token.VAR && gd.Tok != token.CONST) { // a local `const x = …` is a variable that is never assigned
 			t.fail(s, "unsupported declaration")
 		}
 		var lines []string
@@ -1811,15 +2041,22 @@ func (t *tr) rangeStmt(v *ast.RangeStmt, rest func() string) string {
 	if x.t.K == KList {
 		et = x.t.Elem
 	}
+	strPair := false
 	if x.t.K == KBytes && x.t.Str {
-		// range over a Go string yields runes (and byte offsets, which are outside the subset)
+		// range over a Go string yields runes (and byte offsets: RuneIdxFn)
 		if t.cfg.RuneFn == "" {
 			t.fail(v, "range over a string")
 		}
 		if id, ok := v.Key.(*ast.Ident); v.Key != nil && !(ok && id.Name == "_") {
-			t.fail(v, "range over a string with the byte offset")
+			// `for i, r := range s`: the list of (byte offset, rune) pairs; the pair is the element
+			if t.cfg.RuneIdxFn == "" || !ok {
+				t.fail(v, "range over a string with the byte offset")
+			}
+			strPair = true
+			x = val{pre: x.pre, s: t.cfg.RuneIdxFn + " " + paren(x.s), t: &Type{K: KList, Elem: &Type{K: KTuple, Tup: []*Type{TInt, TInt}}}}
+		} else {
+			x = val{pre: x.pre, s: t.cfg.RuneFn + " " + paren(x.s), t: &Type{K: KList, Elem: TInt}}
 		}
-		x = val{pre: x.pre, s: t.cfg.RuneFn + " " + paren(x.s), t: &Type{K: KList, Elem: TInt}}
 		et = TInt
 	}
 	t.nLoop++
@@ -1858,7 +2095,7 @@ func (t *tr) rangeStmt(v *ast.RangeStmt, rest func() string) string {
 		mas = append(mas, o.lean)
 	}
 	idxT, idxA, idxNext := "", "", ""
-	if keyName != "" {
+	if keyName != "" && !strPair {
 		idxT, idxA, idxNext = "Int → ", ", "+keyName, " ("+keyName+" + 1)"
 	}
 	recur := func() string {
@@ -1875,12 +2112,15 @@ func (t *tr) rangeStmt(v *ast.RangeStmt, rest func() string) string {
 	if hd == "" {
 		hd = "_"
 	}
+	if strPair {
+		hd = "(" + keyName + ", " + hd + ")"
+	}
 	sig := fmt.Sprintf("def %s %s : %s → %s%s%s", name, strings.Join(fps, " "), x.t.Lean(), idxT, strings.Join(append(mts, ""), " → "), t.retLean())
 	nilPat := "  | []" + idxA + prefixEach(mas, ", ") + " => do\n" + indent(afterCall(), 4)
 	consPat := "  | " + hd + " :: rest_" + idxA + prefixEach(mas, ", ") + " => do"
 	t.out = append(t.out, fmt.Sprintf("%s\n%s\n%s\n%s\n", sig, nilPat, consPat, indent(inner, 4)))
 	start := ""
-	if keyName != "" {
+	if keyName != "" && !strPair {
 		start = " 0"
 	}
 	call := strings.TrimSpace(fmt.Sprintf("%s %s %s%s %s", name, strings.Join(fas, " "), paren(x.s), start, strings.Join(mas, " ")))
@@ -1892,7 +2132,7 @@ func (t *tr) rangeStmt(v *ast.RangeStmt, rest func() string) string {
 // Translate translates the named top-level functions of one file (in the given order: a function
 // must come after the functions it calls) and returns the Lean text of all definitions.
 func Translate(fset *token.FileSet, file *ast.File, names []string, cfg *Config) (text string, err error) {
-	t := &tr{cfg: cfg, fset: fset, funcs: map[string]*funcSig{}, file: file, inGlobal: map[string]bool{}}
+	t := &tr{cfg: cfg, fset: fset, funcs: map[string]*funcSig{}, file: file, inGlobal: map[string]bool{}, iota: -1}
 	defer func() {
 		if r := recover(); r != nil {
 			if b, ok := r.(bail); ok {
@@ -2042,12 +2282,25 @@ func (t *tr) function(fd *ast.FuncDecl) string {
 			recFuel = t.fuelFor(0)
 		}
 	}
-	body := t.block(fd.Body.List, func() string {
+	stmts := fd.Body.List
+	t.deferred = nil
+	if len(stmts) > 0 {
+		if _, isDefer := stmts[0].(*ast.DeferStmt); isDefer {
+			// `defer func() { … }()` as the FIRST statement of a function with named results (no recover): its body
+			// runs at every return, after the results have been assigned (returnDeferred).  A panic stays a panic.
+			if t.deferred = deferredBody(stmts[0]); t.deferred == nil || len(t.named) == 0 || len(t.named) != len(sig.results) || t.selfRec {
+				t.fail(stmts[0], "unsupported defer")
+			}
+			stmts = stmts[1:]
+		}
+	}
+	body := t.block(stmts, func() string {
 		if len(t.named) > 0 {
 			return t.returnStmt(&ast.ReturnStmt{})
 		}
 		return "none"
 	})
+	t.deferred = nil
 	if fd.Recv != nil {
 		t.funcs[fd.Recv.List[0].Names[0].Name+"."+fd.Name.Name] = sig
 	}
